@@ -913,19 +913,25 @@ Qed.
 Lemma stmt_expr_rel c c' : R c c' -> prel XR (stmt_expr T c) (stmt_expr T c').
 Proof. intros H. unfold stmt_expr. sims. Qed.
 
-Lemma stmt_assignment_rel c c' : R c c' -> prel XR (stmt_assignment T c) (stmt_assignment T c').
-Proof.
-  intros H. unfold stmt_assignment. apply (bind_rel XR); [apply assignable_p_rel; exact H|xr_intro].
-  rewrite (R_token _ _ HR). match goal with |- context [assign_op ?t] => destruct (assign_op t) end; sims.
-Qed.
-
 Lemma stmt_assign_or_expr_rel c c' : R c c' -> prel XR (stmt_assign_or_expr T c) (stmt_assign_or_expr T c').
 Proof.
-  intros H. unfold stmt_assign_or_expr. apply (ptry_rel XR); [apply assignable_p_rel; exact H| |].
+  intros H. unfold stmt_assign_or_expr.
+  pose proof (ta_rel _ _ H) as TA.
+  apply (ptry_rel XR); [apply assignable_p_rel; exact H| |].
   - xr_intro. rewrite (R_token _ _ HR).
-    match goal with |- context [assign_op ?t] => destruct (assign_op t) end;
-      [apply stmt_assignment_rel|apply stmt_expr_rel]; exact H.
-  - intros. apply stmt_expr_rel. exact H.
+    match goal with |- context [assign_op ?t] => destruct (assign_op t) end; [sims|].
+    destruct (type_assignable c) as [[b0 cb]|ce es| |], (type_assignable c') as [[b0' cb']|ce' es'| |];
+      try contradiction; try (apply prel_ret; exact I).
+    + destruct TA as [_ TA]. cbn [snd] in TA. rewrite (R_is_k KLeftBrace _ _ TA).
+      destruct (is_k KLeftBrace cb); [apply stmt_expr_rel; exact H|unfold expression_after; sims].
+    + unfold expression_after. sims.
+  - intros cx es cx' es' HE. rewrite (R_token _ _ H).
+    destruct (token c); try (apply stmt_expr_rel; exact H).
+    destruct (type_assignable c) as [[b0 cb]|ce es0| |], (type_assignable c') as [[b0' cb']|ce' es0'| |];
+      try contradiction; try (apply prel_ret; exact I).
+    + destruct TA as [_ TA]. cbn [snd] in TA. rewrite (R_is_k KLeftBrace _ _ TA).
+      destruct (is_k KLeftBrace cb); [apply stmt_expr_rel; exact H|apply prel_reraise; exact HE].
+    + apply prel_reraise. exact HE.
 Qed.
 
 Lemma stmt_from_rel c c' : R c c' -> prel XR (stmt_from c) (stmt_from c').
